@@ -14,6 +14,10 @@ func realRandIntn(n int) int { return rand.Intn(n) }
 // VERIF_PROCS fixes what Procs() returns outside a simulation, before any
 // instrumented package's init runs (go/ir sizes its package-level cpuLimit
 // semaphore from it).
+// VERIF_RACE_GATES=1 forces the race-detector-invisible gates in every run
+// (gate-equivalence self-test, race tier).
+var forceRaceGates = os.Getenv("VERIF_RACE_GATES") == "1"
+
 func init() {
 	if v := os.Getenv("VERIF_PROCS"); v != "" {
 		if n, err := strconv.Atoi(v); err == nil && n > 0 {
